@@ -350,3 +350,286 @@ Print Assumptions c17_poll_frame.
 Print Assumptions c17_body_rest_frame.
 Print Assumptions c17_fin_overtakes_data_regression.
 Print Assumptions c17_fin_number_collides_with_data_regression.
+
+(* ================================================================== step level: the step predicates of
+   Conn/C17_Pred.v hold of EVERY step of the model (every state, every event; proofs in Conn/C17_Step.v),
+   and therefore along every trace *)
+From Utp Require Import Conn.C17_Step.
+
+Section StepLevel.
+Context {CC : Type} (cci : cc_iface CC).
+Notation vsock := (vsock CC).
+
+(* (e) a poll that reports the reset ends in Closed and emitted neither FIN nor RESET: no precondition *)
+Theorem c17_reset_ok_step :
+  forall cfg (s : vsock) o,
+  let '(s', out, dw, sw) := vstep cci s o in
+  c17_reset_ok cfg
+    {| fs_now := v_env_now s'; fs_pre := fp_of_vsock cci s; fs_event := fevent_of o;
+       fs_result := fresult_of out; fs_disp_woken := dw; fs_self_woken := sw;
+       fs_post := fp_of_vsock cci s' |} = true.
+Proof. exact (c17_reset_ok_vstep cci). Qed.
+
+Theorem c17_reset_ok_trace :
+  forall cfg ops (s : vsock), forallb (c17_reset_ok cfg) (ftrace cci s ops) = true.
+Proof. exact (C17_Step.c17_reset_ok_trace cci). Qed.
+
+(* (e) on the model itself: the reset error leaves Closed, and no datagram of that poll is a FIN or a RESET;
+   no poll whatsoever emits an ST_RESET *)
+Theorem c17_poll_reset :
+  forall (s s' : vsock),
+  poll cci s = (s', PollReadyErr ErrStResetReceived) ->
+  v_state s' = Closed /\
+  forall p, In p (v_out s') -> ch_type (p_hdr p) <> ST_FIN /\ ch_type (p_hdr p) <> ST_RESET.
+Proof. exact (poll_reset cci). Qed.
+
+Theorem c17_poll_no_reset_pkt :
+  forall (s s' : vsock) r,
+  poll cci s = (s', r) -> forall p, In p (v_out s') -> ch_type (p_hdr p) <> ST_RESET.
+Proof. exact (poll_no_reset_pkt cci). Qed.
+
+(* (c) the number recorded in FinWait1 f / LastAck f _ does not change while recorded, and every ST_FIN
+   a poll emits carries it: no precondition *)
+Theorem c17_fin_number_step_ok_step :
+  forall cfg (s : vsock) o,
+  let '(s', out, dw, sw) := vstep cci s o in
+  c17_fin_number_step_ok cfg
+    {| fs_now := v_env_now s'; fs_pre := fp_of_vsock cci s; fs_event := fevent_of o;
+       fs_result := fresult_of out; fs_disp_woken := dw; fs_self_woken := sw;
+       fs_post := fp_of_vsock cci s' |} = true.
+Proof. exact (c17_fin_number_step_ok_vstep cci). Qed.
+
+Theorem c17_fin_number_step_ok_trace :
+  forall cfg ops (s : vsock), forallb (c17_fin_number_step_ok cfg) (ftrace cci s ops) = true.
+Proof. exact (C17_Step.c17_fin_number_step_ok_trace cci). Qed.
+
+(* (a) SYN-ACK, under syn_pre: the options are those of cfg, 0 <= max_retx, a SYN-ACK counter is in 1..max_retx *)
+Theorem c17_synack_ok_step :
+  forall cfg (s : vsock) o,
+  syn_pre cfg s ->
+  let '(s', out, dw, sw) := vstep cci s o in
+  c17_synack_ok cfg
+    {| fs_now := v_env_now s'; fs_pre := fp_of_vsock cci s; fs_event := fevent_of o;
+       fs_result := fresult_of out; fs_disp_woken := dw; fs_self_woken := sw;
+       fs_post := fp_of_vsock cci s' |} = true.
+Proof. exact (c17_synack_ok_vstep cci). Qed.
+
+(* syn_pre is an invariant: it holds after vsock_new (0 <= max_retx) and is kept by every event *)
+Theorem c17_syn_pre_new :
+  forall mk cfg (s0 : vsock),
+  vsock_new cci mk cfg = Some s0 -> 0 <= vc_max_retx cfg -> syn_pre cfg s0.
+Proof. exact (syn_pre_new cci). Qed.
+
+Theorem c17_syn_pre_step :
+  forall cfg (s : vsock) o,
+  syn_pre cfg s -> let '(s', _, _, _) := vstep cci s o in syn_pre cfg s'.
+Proof. exact (syn_pre_vstep_expanded cci). Qed.
+
+Theorem c17_synack_ok_trace :
+  forall mk cfg (s0 : vsock) ops,
+  vsock_new cci mk cfg = Some s0 -> 0 <= vc_max_retx cfg ->
+  forallb (c17_synack_ok cfg) (ftrace cci s0 ops) = true.
+Proof. exact (C17_Step.c17_synack_ok_trace cci). Qed.
+
+(* (c) FIN only after all data.  c17_fin_after_data_ok AS WRITTEN IS FALSE of the model (see
+   c17_fin_after_data_ok_refuted below).  It holds of every step unless the dispatcher's channel is closed AND
+   the poll reports a transport error, given the monitored bound 0 <= seg_len_bytes <= tx_len of the
+   fingerprint after the step (c17_seg_bounds) *)
+Theorem c17_fin_after_data_ok_step_gen :
+  forall cfg (s : vsock) o,
+  let '(s', out, dw, sw) := vstep cci s o in
+  let st := {| fs_now := v_env_now s'; fs_pre := fp_of_vsock cci s; fs_event := fevent_of o;
+               fs_result := fresult_of out; fs_disp_woken := dw; fs_self_woken := sw;
+               fs_post := fp_of_vsock cci s' |} in
+  c17_seg_bounds (fs_post st) = true ->
+  v_inbox_closed s = false \/ c17_not_err_send (fs_result st) = true ->
+  c17_fin_after_data_ok cfg st = true.
+Proof. exact (c17_fin_after_data_ok_vstep_gen cci). Qed.
+
+(* the same with the guard evaluated on the step alone (bound on the post fingerprint, result not ErrSend):
+   c17_fin_after_data_guarded cfg st = if guard st then c17_fin_after_data_ok cfg st else true *)
+Theorem c17_fin_after_data_guarded_step :
+  forall cfg (s : vsock) o,
+  let '(s', out, dw, sw) := vstep cci s o in
+  c17_fin_after_data_guarded cfg
+    {| fs_now := v_env_now s'; fs_pre := fp_of_vsock cci s; fs_event := fevent_of o;
+       fs_result := fresult_of out; fs_disp_woken := dw; fs_self_woken := sw;
+       fs_post := fp_of_vsock cci s' |} = true.
+Proof. exact (c17_fin_after_data_guarded_vstep cci). Qed.
+
+Theorem c17_fin_after_data_guarded_trace :
+  forall cfg ops (s : vsock), forallb (c17_fin_after_data_guarded cfg) (ftrace cci s ops) = true.
+Proof. exact (C17_Step.c17_fin_after_data_guarded_trace cci). Qed.
+
+(* while the dispatcher's channel is open (the trace has no VoCloseInbox) only the bound is needed *)
+Theorem c17_fin_after_data_open_trace :
+  forall cfg ops (s : vsock),
+  v_inbox_closed s = false -> Forall not_close_inbox ops ->
+  forallb (c17_fin_after_data_bounded cfg) (ftrace cci s ops) = true.
+Proof. exact (C17_Step.c17_fin_after_data_open_trace cci). Qed.
+
+Theorem c17_vsock_new_inbox_open :
+  forall mk cfg (s0 : vsock), vsock_new cci mk cfg = Some s0 -> v_inbox_closed s0 = false.
+Proof. exact (vsock_new_inbox_open cci). Qed.
+
+(* (c) on the model itself: a poll that ends in FinWait1 f started there, or closed on its own initiative with
+   the send buffer fully segmented and every segment sent, or the channel was closed and the FIN could not be sent *)
+Theorem c17_poll_fin_after_data :
+  forall (s s' : vsock) r,
+  poll cci s = (s', r) ->
+  forall f, v_state s' = FinWait1 f ->
+    v_state s = FinWait1 f \/ FAD s' \/ (v_inbox_closed s = true /\ r = PollReadyErr ErrSend).
+Proof. exact (poll_FAD cci). Qed.
+
+(* (e) trace level: a RESET delivered alone past the handshake ends the connection in the very next poll
+   (c17_reset_trace_ok = reset_scan from Some []), along every trace from vsock_new *)
+Theorem c17_reset_trace_ok_trace :
+  forall mk cfg (s0 : vsock) ops,
+  vsock_new cci mk cfg = Some s0 -> c17_reset_trace_ok cfg (ftrace cci s0 ops) = true.
+Proof. exact (C17_Step.c17_reset_trace_ok_trace cci). Qed.
+
+(* the same from any state with an empty, open inbox *)
+Theorem c17_reset_trace_ok_trace_pre :
+  forall cfg ops (s : vsock),
+  v_inbox s = [] -> v_inbox_closed s = false -> c17_reset_trace_ok cfg (ftrace cci s ops) = true.
+Proof. exact (C17_Step.c17_reset_trace_ok_trace_pre cci). Qed.
+
+(* (e) what the walk rests on: a non-acknowledging reset at the head of the inbox is reported at once with
+   nothing on the wire (no liveness hypothesis on the receive half, unlike c17_reset) *)
+Theorem c17_reset_err_poll_out :
+  forall (s : vsock) script m rest,
+  past_handshake (v_state s) = true -> immediate_ack_to_transmit s = false ->
+  v_inbox s = m :: rest -> ch_type (m_hdr m) = ST_RESET ->
+  (forall f r, v_state s = LastAck f r -> ch_ack (m_hdr m) <> f) ->
+  exists s', poll cci (set_sends s script) = (s', PollReadyErr ErrStResetReceived) /\ v_out s' = [].
+Proof. exact (reset_err_poll_out cci). Qed.
+
+(* (e) a reset that acknowledges our FIN in LastAck leaves the connection Closed when the poll returns *)
+Theorem c17_reset_ack_poll :
+  forall (s : vsock) script m rest f r0 s' r,
+  immediate_ack_to_transmit s = false ->
+  v_inbox s = m :: rest -> ch_type (m_hdr m) = ST_RESET ->
+  v_state s = LastAck f r0 -> ch_ack (m_hdr m) = f ->
+  poll cci (set_sends s script) = (s', r) -> r = PollPanic \/ v_state s' = Closed.
+Proof. exact (reset_ack_poll cci). Qed.
+
+(* a poll that returns Pending with a writable transport has drained the inbox and is not closed *)
+Theorem c17_poll_pending_drained :
+  forall (s s' : vsock),
+  poll cci s = (s', PollPending) -> v_transport_pending s' = false -> v_inbox s' = [].
+Proof. exact (poll_pending_drained cci). Qed.
+
+Theorem c17_poll_pending_not_closed :
+  forall (s s' : vsock),
+  poll cci s = (s', PollPending) -> v_transport_pending s' = false ->
+  state_is_closed (v_state s') (o_wait_for_last_ack (v_opts s')) = false.
+Proof. exact (poll_pending_not_closed cci). Qed.
+
+(* (c) the bound is NOT an assumption: 0 <= segmented bytes <= buffer length (with the segment-table and
+   segment-size invariants, LB 0) holds after vsock_new on a valid configuration and is kept by every event *)
+Theorem c17_lb_new :
+  forall mk cfg (s0 : vsock),
+  C10_Pred.vconfig_ok cfg = true -> vsock_new cci mk cfg = Some s0 -> C17_StepLemmas.LB 0 s0.
+Proof. exact (C17_StepLemmas.vsock_new_LB cci). Qed.
+
+Theorem c17_lb_step :
+  forall (s : vsock) o,
+  C17_StepLemmas.LB 0 s -> let '(s', _, _, _) := vstep cci s o in C17_StepLemmas.LB 0 s'.
+Proof. exact (LB_vstep_expanded cci). Qed.
+
+Theorem c17_seg_bounds_trace :
+  forall mk cfg (s0 : vsock) ops,
+  C10_Pred.vconfig_ok cfg = true -> vsock_new cci mk cfg = Some s0 ->
+  forallb (fun st => c17_seg_bounds (fs_post st)) (ftrace cci s0 ops) = true.
+Proof. exact (C17_Step.c17_seg_bounds_trace cci). Qed.
+
+(* (c) hence, for every connection built from a valid configuration: c17_fin_after_data_ok holds of every step
+   unless the channel is closed and the poll reports a transport error ... *)
+Theorem c17_fin_after_data_ok_step_inv :
+  forall cfg (s : vsock) o,
+  C17_StepLemmas.LB 0 s ->
+  let '(s', out, dw, sw) := vstep cci s o in
+  let st := {| fs_now := v_env_now s'; fs_pre := fp_of_vsock cci s; fs_event := fevent_of o;
+               fs_result := fresult_of out; fs_disp_woken := dw; fs_self_woken := sw;
+               fs_post := fp_of_vsock cci s' |} in
+  v_inbox_closed s = false \/ c17_not_err_send (fs_result st) = true ->
+  c17_fin_after_data_ok cfg st = true.
+Proof. exact (c17_fin_after_data_ok_vstep_inv cci). Qed.
+
+(* ... along every trace, for the steps that do not report a transport error
+   (c17_fin_after_data_noerr cfg st = if c17_not_err_send (fs_result st) then c17_fin_after_data_ok cfg st else true) ... *)
+Theorem c17_fin_after_data_noerr_trace :
+  forall mk cfg (s0 : vsock) ops,
+  C10_Pred.vconfig_ok cfg = true -> vsock_new cci mk cfg = Some s0 ->
+  forallb (c17_fin_after_data_noerr cfg) (ftrace cci s0 ops) = true.
+Proof. exact (C17_Step.c17_fin_after_data_noerr_trace cci). Qed.
+
+(* ... and the predicate exactly as written along every trace without VoCloseInbox *)
+Theorem c17_fin_after_data_ok_open_trace :
+  forall mk cfg (s0 : vsock) ops,
+  C10_Pred.vconfig_ok cfg = true -> vsock_new cci mk cfg = Some s0 -> Forall not_close_inbox ops ->
+  forallb (c17_fin_after_data_ok cfg) (ftrace cci s0 ops) = true.
+Proof. exact (C17_Step.c17_fin_after_data_ok_open_trace cci). Qed.
+
+End StepLevel.
+
+(* counterexample: c17_fin_after_data_ok is false of the model (channel closed, FIN refused by the transport) *)
+Theorem c17_fin_after_data_ok_refuted :
+  exists cfg ops s0,
+    vsock_new (fixed_cc 4096) (fun _ _ => tt) cfg = Some s0 /\
+    forallb (c17_fin_after_data_ok cfg) (ftrace (fixed_cc 4096) s0 ops) = false.
+Proof. exact C17_Step.c17_fin_after_data_ok_refuted. Qed.
+
+(* the shape of that counterexample: Established -> FinWait1 with PollReadyErr ErrSend, nothing emitted,
+   100 bytes in the buffer, none segmented; the monitored bound holds in every step of it *)
+Theorem c17_fin_after_data_refuted_shape : fad_refuted_b = true.
+Proof. exact C17_Step.c17_fin_after_data_refuted_shape. Qed.
+
+(* the guard is met by a reachable step that does close on own initiative *)
+Theorem c17_fin_after_data_guard_satisfiable : fad_guard_witness_b = true.
+Proof. exact C17_Step.c17_fin_after_data_guard_satisfiable. Qed.
+
+(* c17_synack_ok needs 0 <= max_retx *)
+Theorem c17_synack_ok_negative_limit_refuted :
+  exists cfg ops s0,
+    vsock_new (fixed_cc 4096) (fun _ _ => tt) cfg = Some s0 /\ vc_max_retx cfg < 0 /\
+    forallb (c17_synack_ok cfg) (ftrace (fixed_cc 4096) s0 ops) = false.
+Proof. exact C17_Step.c17_synack_ok_negative_limit_refuted. Qed.
+
+(* an incoming connection goes through SynAckSent 1, 2 and fails with the exhaustion error (max_retx = 2) *)
+Theorem c17_synack_handshake_reachable : synack_witness_b = true.
+Proof. exact C17_Step.c17_synack_handshake_reachable. Qed.
+
+Print Assumptions c17_reset_ok_step.
+Print Assumptions c17_reset_ok_trace.
+Print Assumptions c17_poll_reset.
+Print Assumptions c17_poll_no_reset_pkt.
+Print Assumptions c17_fin_number_step_ok_step.
+Print Assumptions c17_fin_number_step_ok_trace.
+Print Assumptions c17_synack_ok_step.
+Print Assumptions c17_syn_pre_new.
+Print Assumptions c17_syn_pre_step.
+Print Assumptions c17_synack_ok_trace.
+Print Assumptions c17_fin_after_data_ok_step_gen.
+Print Assumptions c17_fin_after_data_guarded_step.
+Print Assumptions c17_fin_after_data_guarded_trace.
+Print Assumptions c17_fin_after_data_open_trace.
+Print Assumptions c17_vsock_new_inbox_open.
+Print Assumptions c17_poll_fin_after_data.
+Print Assumptions c17_fin_after_data_ok_refuted.
+Print Assumptions c17_fin_after_data_refuted_shape.
+Print Assumptions c17_fin_after_data_guard_satisfiable.
+Print Assumptions c17_synack_ok_negative_limit_refuted.
+Print Assumptions c17_synack_handshake_reachable.
+Print Assumptions c17_reset_trace_ok_trace.
+Print Assumptions c17_reset_trace_ok_trace_pre.
+Print Assumptions c17_reset_err_poll_out.
+Print Assumptions c17_reset_ack_poll.
+Print Assumptions c17_poll_pending_drained.
+Print Assumptions c17_poll_pending_not_closed.
+Print Assumptions c17_lb_new.
+Print Assumptions c17_lb_step.
+Print Assumptions c17_seg_bounds_trace.
+Print Assumptions c17_fin_after_data_ok_step_inv.
+Print Assumptions c17_fin_after_data_noerr_trace.
+Print Assumptions c17_fin_after_data_ok_open_trace.
